@@ -808,3 +808,10 @@ M("C10-copy-ctor-no-param-check", "C10", "src/cppparser/cppInstance.cxx",
   "        if (!params->_parameters.empty() && !params->_includes_ellipsis &&\n            (params->_parameters.size() == 1 ||\n             params->_parameters[1]->_initializer != nullptr)) {",
   "        if (!params->_includes_ellipsis) {",
   expect="R10.3|check_for_constructor|F_copy_constructor|first-parameter-exists")
+
+M("C14-ext-imports-sorted-by-simple-name", "C14", "src/interrogate/interfaceMakerPythonNative.cxx",
+  "      return a->get_local_name(&parser) < b->get_local_name(&parser);", "      return a->get_simple_name() < b->get_simple_name();",
+  expect="R14.5c|InterfaceMakerPythonNative::write_prototypes")
+M("C14-benign-ext-imports-sorted-by-scoped-name", "C14", "src/interrogate/interfaceMakerPythonNative.cxx",
+  "      return a->get_local_name(&parser) < b->get_local_name(&parser);", "      return b->get_local_name(&parser) > a->get_local_name(&parser);",
+  benign=True)
